@@ -15,7 +15,7 @@ RULE = ('differential runs: identical inputs, failure set, preprocessor rejectio
         '(priority permutation => completion order) through fifo_stream and async_fifo_stream; all n! duration rankings for n<=4 '
         '(quick) / n<=5 (thorough), seeded rankings for n<=60; Parmapper vs AsyncParmapper/AsyncParmapperAsync/ParmapperAsync with '
         'duration-carrying elements; Server.call/stream vs AsyncServer.call/stream on the same servlet and request plan. '
-        'non-trivial = a rejected or failing element present and an out-of-order completion; distinct = distinct (config, ranking)')
+        'non-trivial = a rejected or failing element present and an out-of-order completion; distinct = distinct (config, ranking); a phase with 6-12 concurrent no-backpressure callers on capacity 2-3 with equal service times on both servers')
 ASSUMPTIONS = ['outputs are compared after normalising exceptions to (type name, args)']
 CASE_TIMEOUT = 120
 PARALLEL = 14
